@@ -675,6 +675,28 @@ func (c *EvalCtx) evalCall(n ECall, want *Sort) (Val, error) {
 		}
 		as := refArr(ls[0])
 		return scalar(as, x.heapGet(c.st, x.fieldArrName(pt.Elem(), idx, 0), as)), nil
+	case "elemsk":
+		// elemsk(s, k): the element array holding leaf k of the elements of slice s (interfaces: 0 = tag, 1 = payload)
+		v, err := arg(0, nil)
+		if err != nil {
+			return Val{}, err
+		}
+		sl, ok := v.GT.Underlying().(*types.Slice)
+		if !ok {
+			return Val{}, c.errf("elemsk of non-slice")
+		}
+		kl, ok := n.Args[1].(EInt)
+		if !ok {
+			return Val{}, c.errf("elemsk(s, literal)")
+		}
+		var k int
+		fmt.Sscanf(kl.V, "%d", &k)
+		es := x.layout(sl.Elem())
+		if k < 0 || k >= len(es) {
+			return Val{}, c.errf("elemsk: leaf out of range")
+		}
+		name, as := x.elemArr(sl.Elem(), k, es[k])
+		return scalar(as.Val, "(select "+x.heapGet(c.st, name, as)+" "+v.L[0]+")"), nil
 	case "base":
 		v, err := arg(0, nil)
 		if err != nil {
